@@ -892,7 +892,7 @@ func writeEvidence(g *G, prop string, results []*FuncResult, obls []*Obl, nObl, 
 			nObl, prop, nDis, len(knownHits), len(violations)),
 	}
 	assumptions := []string{
-		"int is 64-bit (GOARCH=amd64); slice capacities are at most 2^48",
+		"int is 64-bit (GOARCH=amd64); slice capacities are at most 2^44",
 		"go/ssa (x/tools v0.29.0) and the SMT solvers are correct",
 		"goroutines, channels, select are dropped constructs; concurrency is covered only by lock-discipline obligations",
 		"floating point values are uninterpreted",
@@ -900,6 +900,7 @@ func writeEvidence(g *G, prop string, results []*FuncResult, obls []*Obl, nObl, 
 		"termination is proved only where a decreases clause is given",
 	}
 	assumptions = append(assumptions, propAssumptions[prop]...)
+	assumptions = append(assumptions, fmt.Sprintf("every trusted contract, assumed clause, axiom, heap invariant and abstraction this run relied on is listed in coverage.trusted_base (%d entries) and coverage.abstractions (%d entries)", len(trusted), len(abstr)))
 	ev := Evidence{PropertyID: prop, Tier: *flagTier, Seed: 0, Level: level, Coverage: cov, Assumptions: assumptions, WallS: wall, Violations: len(violations)}
 	if s := os.Getenv("VERIF_SEED"); s != "" {
 		fmt.Sscanf(s, "%d", &ev.Seed)
